@@ -240,7 +240,29 @@ func runPrivCase(t *testing.T, pc privCase) (res *privResult) {
 		case "endpoint_malformed":
 			sr.endpoint = "grpc://%zz:port"
 		}
-		out, err := grpc.NewTLSAuthenticator(sr).Authenticate(P.did, peer)
+		auth := grpc.NewTLSAuthenticator(sr)
+		out, err := auth.Authenticate(P.did, peer)
+		if len(pc.Steps) > 1 && pc.Steps[1].str("a") == "Reauthenticate" {
+			// same authenticator, same certificate; the DID document has changed in between
+			if err != nil || !out.Authenticated {
+				res.Drift = append(res.Drift, "first authentication failed")
+				return res
+			}
+			st = pc.Steps[1]
+			peer = transport.Peer{ID: "P", Address: "1.2.3.4:5555", Certificate: cert}
+			sr.endpoint, sr.err = "grpc://nuts.example.com:5555", nil
+			switch st.str("case") {
+			case "no_cert":
+				peer.Certificate = nil
+			case "cert_other_host":
+				sr.endpoint = "grpc://moved.example.com:5555"
+			case "service_unresolvable":
+				sr.err = errors.New("service not found")
+			case "endpoint_malformed":
+				sr.endpoint = "grpc://%zz:port"
+			}
+			out, err = auth.Authenticate(P.did, peer)
+		}
 		obs := "refused"
 		if err == nil && out.Authenticated {
 			obs = "authenticated"
